@@ -3,6 +3,7 @@ import TucanProofs.Lemmas.NxEdges
 import TucanProofs.Lemmas.RoundTripPipeline
 import TucanProofs.Lemmas.FilesMol
 import TucanProofs.Lemmas.MoreExamples
+import TucanProofs.Lemmas.LayoutString
 /-!
 # C05 — every emitted string obeys the published grammar and canonical layout
 
@@ -43,6 +44,63 @@ theorem C05_grammar_element_order :
     withCarbonOrder = ['C'] :: ['H'] :: withoutCarbonOrder.filter (· != ['H']) :=
   ⟨atn_withoutCarbon_is_sorted.2.2.1, atn_withCarbon_is_hill.2.2⟩
 
+/-- **The canonical layout, stated about the emitted string.**  The string the pipeline returns for a molecule
+lexes, is a sentence of the grammar, and its syntax tree (which the grammar determines) has the canonical layout
+(`Ast.Canonical`): element symbols in Hill order, each once (`IsHillOrder`, written without reference to the
+writer); every literal the decimal numeral of a positive number without leading zeros, a count of 1 not
+written; every tuple `(a-b)` with `a < b`, tuples strictly ascending (so each bond once); attribute blocks
+strictly ascending by atom index (so one block per atom), each non-empty with `mass` before `rad`; and it states
+the molecule's own counts: as many atoms of each element as the molecule has, every element of the molecule,
+`n` atoms, one tuple per bond, one attribute block per atom that carries a mass or a radical. -/
+theorem C05_emitted_layout (order : Graph → List Nat) (hperm : ∀ r : Graph, r.WF → (order r).Perm r.labels)
+    (g : Graph) (hw : g.WF) (hs : g.Simple) (hmol : g.MolAtoms)
+    (s : Str) (h : tucanOf order g = .ok s) :
+    ∃ toks ast, lex s = some toks ∧ Sentence toks ast ∧ ast.Canonical ∧
+      (∀ p ∈ ast.formula, Acc.itemCount p = countOcc p.1 (g.nodes.filterMap (·.attrs.sym))) ∧
+      (∀ sym ∈ g.nodes.filterMap (·.attrs.sym), sym ∈ ast.formula.map (·.1)) ∧
+      ast.atomCount = g.numberOfNodes ∧
+      ast.tuples.length = g.numberOfEdges ∧
+      ast.attrs.length = (g.nodes.filter fun n => n.attrs.mass.isSome || n.attrs.rad.isSome).length := by
+  obtain ⟨toks, ast, hl, hsn, hc⟩ := emitted_layout order hperm g hw hs hmol s h
+  obtain ⟨toks', ast', hl', hsn', hcnt⟩ := emitted_counts order hperm g hw hs hmol s h
+  rw [hl] at hl'
+  cases hl'
+  have ha := (parseTucan_iff _ _).2 hsn
+  rw [(parseTucan_iff _ _).2 hsn'] at ha
+  cases ha
+  exact ⟨toks, ast, hl, hsn, hc, hcnt⟩
+
+/-- what `Ast.Canonical` asks, spelled out -/
+theorem C05_canonical_spelled_out (ast : Ast) : ast.Canonical ↔
+    IsHillOrder (ast.formula.map (·.1)) ∧
+    (∀ t ∈ ast.literals, 1 ≤ litVal t ∧ t = natRepr (litVal t)) ∧
+    (∀ p ∈ ast.formula, ∀ c, p.2 = some c → 2 ≤ litVal c) ∧
+    (∀ p ∈ ast.tuples, litVal p.1 < litVal p.2) ∧
+    (ast.tuples.map fun p => (litVal p.1, litVal p.2)).Pairwise (fun x y => x.1 < y.1 ∨ (x.1 = y.1 ∧ x.2 < y.2)) ∧
+    (ast.attrs.map fun b => litVal b.1).Pairwise (· < ·) ∧
+    (∀ b ∈ ast.attrs, b.2.map (·.1) = ["mass".toList] ∨ b.2.map (·.1) = ["rad".toList] ∨
+      b.2.map (·.1) = ["mass".toList, "rad".toList]) :=
+  ⟨fun h => ⟨h.hill, h.numerals, h.noCountOne, h.tupleOrient, h.tuplesAscending, h.blocksAscending, h.blockKeys⟩,
+   fun ⟨a, b, c, d, e, f, g⟩ => ⟨a, b, c, d, e, f, g⟩⟩
+
+/-- **Hill order, specified**: for every multiset of symbols, the symbols of the items the writer emits are
+distinct; with carbon, `C` comes first, then `H` when present, then the rest by ascending code points; without
+carbon everything (hydrogen included) by ascending code points. -/
+theorem C05_writer_order_is_hill (syms : List Str) : IsHillOrder ((hillItems syms).map (·.1)) :=
+  Layout.hill_order syms
+
+/-- non-vacuity of `IsHillOrder`: `C, H, Cl, N, O` is in Hill order; `H, C` and `C, O, N` are not -/
+example : IsHillOrder [['C'], ['H'], ['C','l'], ['N'], ['O']] ∧ ¬ IsHillOrder [['H'], ['C']] ∧
+    ¬ IsHillOrder [['C'], ['O'], ['N']] := by
+  refine ⟨⟨by decide, fun _ => ⟨_, rfl, fun _ => ⟨_, rfl⟩⟩, by decide⟩, ?_, ?_⟩
+  · intro h
+    obtain ⟨r, hr, _⟩ := h.carbonFirst (by decide)
+    cases hr
+  · intro h
+    have := h.restAscending
+    revert this
+    decide
+
 /-- **Every string the pipeline emits is a sentence of the published grammar** (lexically and
 syntactically), for molecules in the domain the readers and the parser produce (`MolAtoms`: element
 symbols of the table, mass / radical absent or strictly positive). -/
@@ -60,7 +118,8 @@ theorem C05_emitted_is_sentence (order : Graph → List Nat) (hperm : ∀ r : Gr
     | none => simp [hl, hpt, bind, Except.bind, pure, Except.pure] at hp
     | some ast => exact ⟨toks, ast, rfl, (parseTucan_iff toks ast).mp hpt⟩
 
-/-- **From a conformant molfile to a sentence.**  For the graph of every molecule a molfile can state within the
+/-- **From the graph of a conformant molecule to a sentence** (with the file's text inside the statement:
+`C15_v3000_text_to_string`).  For the graph of every molecule a molfile can state within the
 CTfile specification (`Mol.Conformant`: element symbols of the table or D/T, masses and radicals not negative;
 the graph is what either reader returns for a file stating it — `C06_v3000_file_any_indices`,
 `C06_readsAs_graph_of`), the emitted string is a sentence of the grammar. -/
